@@ -70,6 +70,10 @@ DoJobEnd(C, hdr, e) == [C EXCEPT !.ended = @ \cup {e.job}]
 
 EndWhy(C, hdr, e, on) ==
   IF "nohang" \in on /\ e.outcome = "hang" THEN "nohang:quiescent-with-pending-workflow"
+  \* if no task function raised, no job can end "failed": run() must return (the generated programs have no other
+  \* source of errors than task functions and unknown executors)
+  ELSE IF "nohang" \in on /\ e.outcome = "error" /\ C.failed = {} /\ e.etype # "SchedulerError"
+       THEN "nohang:run-aborted-although-no-task-failed"
   ELSE IF "nohang" \in on /\ e.outcome = "value" /\ DOMAIN C.live # {} THEN "nohang:returned-with-running-jobs"
   ELSE IF "nohang" \in on /\ e.outcome = "value" /\ C.started # C.ended THEN "nohang:returned-with-unsettled-jobs"
   \* when run() returns, the scheduler accounts exactly for what still-running jobs hold (normally nothing)
